@@ -176,3 +176,44 @@ Proof.
   unfold moof_size. split; [reflexivity|]. split; [lia|]. split; [lia|].
   intros Hlt. apply N.ltb_lt in Hlt. rewrite Hlt. lia.
 Qed.
+
+(* ---------------------------------------------------------------- protection signalling vs everything else *)
+(* is_protection_box looks at the grouping type of sbgp / sgpd.  What RemoveEncryptionBoxes removes is protection
+   signalling (removed kinds are a subset), so every box that is NOT protection signalling - sample groups roll / rap
+   / sync / alst / ..., subs, tfxd / tfrf, unknown boxes - is kept, in order, unchanged *)
+Lemma prot_kind_is_protection k : is_prot_kind k = true -> is_protection_box k = true.
+Proof. destruct k; try discriminate; reflexivity. Qed.
+
+Lemma filter_filter_sub {A} (f g : A -> bool) l :
+  (forall x, f x = true -> g x = true) -> filter f (filter g l) = filter f l.
+Proof.
+  intros H. induction l as [|x t IH]; [reflexivity|]. cbn [filter].
+  destruct (g x) eqn:Eg; cbn [filter]; [rewrite IH; reflexivity|].
+  destruct (f x) eqn:Ef; [rewrite (H x Ef) in Eg; discriminate|exact IH].
+Qed.
+
+Lemma reb_keeps_nonprotection ch :
+  filter (fun b => negb (is_protection_box (tk b))) (fst (remove_encryption_boxes ch))
+  = filter (fun b => negb (is_protection_box (tk b))) ch /\
+  (forall b, In b ch -> is_protection_box (tk b) = false -> In b (fst (remove_encryption_boxes ch))) /\
+  (forall b, In b (fst (remove_encryption_boxes ch)) -> In b ch) /\
+  sumN (map tsize (fst (remove_encryption_boxes ch))) + snd (remove_encryption_boxes ch) = sumN (map tsize ch).
+Proof.
+  destruct (reb_general ch) as [H1 _]. rewrite H1. split; [|split; [|split]].
+  - apply filter_filter_sub. intros b Hb. destruct (is_prot_kind (tk b)) eqn:E; [|reflexivity].
+    rewrite (prot_kind_is_protection _ E) in Hb. discriminate.
+  - intros b Hin Hb. apply filter_In. split; [exact Hin|].
+    destruct (is_prot_kind (tk b)) eqn:E; [|reflexivity]. rewrite (prot_kind_is_protection _ E) in Hb. discriminate.
+  - intros b Hin. apply filter_In in Hin. apply Hin.
+  - rewrite <- H1. apply reb_size.
+Qed.
+
+(* the variant that removes every sbgp / sgpd whatever the grouping type drops a box that is not protection
+   signalling: traf {tfhd, trun, sbgp(roll), sgpd(roll)} *)
+Definition cc_roll : N := 1919904876.
+Lemma drop_all_groups_refuted :
+  let ch := [mkT TOther 16 1; mkT TTrun 32 2; mkT (TSbgp cc_roll) 28 3; mkT (TSgpd cc_roll) 26 4] in
+  filter (fun b => negb (is_protection_box (tk b))) (fst (remove_encryption_boxes_allgroups ch))
+  <> filter (fun b => negb (is_protection_box (tk b))) ch /\
+  fst (remove_encryption_boxes ch) = ch.
+Proof. split; [vm_compute; discriminate|reflexivity]. Qed.
